@@ -156,9 +156,24 @@ func pidx(p peer.ID) int {
 	return -1
 }
 
+// lastFailure holds the message of the failing check of the current case, so
+// that it can be reported if the clean-up wedges afterwards.
+var lastFailure string
+
 func (n *node) stop() {
 	if n.f != nil && n.up {
-		n.f.Close()
+		done := make(chan struct{})
+		go func() { n.f.Close(); close(done) }()
+		select {
+		case <-done:
+		case <-time.After(90 * time.Second):
+			// a peer whose Shutdown never returns cannot be cleaned up; that
+			// is a failure of the property itself (members stop when asked or
+			// removed), reported directly because the test cannot go on
+			fmt.Printf("%s\nShutdown of peer %d did not return within 90 s\n--- FAIL: TestMembership (shutdown hangs)\n", lastFailure, n.idx)
+			ev.Flush()
+			os.Exit(1)
+		}
 		n.up = false
 	}
 }
@@ -255,7 +270,8 @@ func TestMembership(t *testing.T) {
 			classes["bulk"] = true
 		}
 		fail := func(format string, a ...interface{}) {
-			t.Fatalf("%s\nscript: %s", fmt.Sprintf(format, a...), strings.Join(script, " ; "))
+			lastFailure = fmt.Sprintf("%s\nscript: %s", fmt.Sprintf(format, a...), strings.Join(script, " ; "))
+			t.Fatalf("%s", lastFailure)
 		}
 		modelPins := func() string {
 			var s []string
